@@ -173,6 +173,7 @@ type zstdWriteStreamReader struct {
 	stream      bytestream.ByteStream_WriteServer
 	nextOffset  int64
 	finished    bool
+	drained     bool
 	pendingData []byte
 }
 
@@ -184,6 +185,16 @@ func (r *zstdWriteStreamReader) Read(p []byte) (n int, err error) {
 	}
 
 	if r.finished {
+		if !r.drained {
+			// Just like for uncompressed uploads, the client must
+			// not send any further requests after finish_write.
+			if _, err := r.stream.Recv(); err == nil {
+				return 0, status.Error(codes.InvalidArgument, "Client closed stream twice")
+			} else if !errors.Is(err, io.EOF) {
+				return 0, err
+			}
+			r.drained = true
+		}
 		return 0, io.EOF
 	}
 
@@ -212,6 +223,10 @@ func (zstdWriteStreamReader) Close() error {
 }
 
 func (s *byteStreamServer) writeZstd(stream bytestream.ByteStream_WriteServer, request *bytestream.WriteRequest, digest digest.Digest) error {
+	if request.WriteOffset != 0 {
+		return status.Errorf(codes.InvalidArgument, "Attempted to write at offset %d, while 0 was expected", request.WriteOffset)
+	}
+
 	ctx := stream.Context()
 	streamReader := &zstdWriteStreamReader{
 		stream:      stream,
